@@ -169,3 +169,119 @@ Example sel_example :
   sel 9 1 0 0 3 10 = [1; 4; 7] /\ sel 9 1 0 1 3 10 = [2; 5; 8] /\ sel 9 1 0 2 3 10 = [3; 6]
   /\ sel 9 1 0 0 1 10 = [1; 2; 3; 4; 5; 6; 7; 8] /\ sel 9 1 3 1 3 10 = [5; 8].
 Proof. vm_compute. repeat split. Qed.
+
+(** ** Third session: the pipeline inside the model (Pipeline_Model.v, C08_Pipeline.v, C08_PipelineProofs.v).
+    The Section variable [g] of the end-to-end theorems above is instantiated with [pipe_fn opq p g b seed epoch]:
+    the interpreter of the preprocessing configuration [p] (global or per source) followed by the whitespace-correction
+    task over a byte tokenizer [b], applied with the info the loader builds, item seed = seed + epoch + position.
+    The generator is C07's (seeded for the weighted strategy), the batcher C06's seeded one: [loader_run] computes
+    min_items and the batches of one rank from (file lines, configuration, seed, epoch, limit, skip, fast-forward,
+    rank, world size, batching configuration) alone — no oracle, no purity premise.  [opq]: the stages that are not
+    modelled (spelling corruption, json/chat decode) as an arbitrary function; the pinned file Pipeline_Props.v has
+    the theorems about the interpreter itself. *)
+From TU Require Import RNG_Model.
+From TU Require Import C01_Model C06_Seeded C07_Model Pipeline_Model C08_Pipeline C08_PipelineProofs.
+Local Open Scope nat_scope.
+
+(** item level, every [g]: restarting with fast_forward(k) yields exactly the ITEMS (position and value) of the
+    uninterrupted run from position skip + k on, in the same order *)
+Theorem loader_resume_items : forall (D B : Type) (data : list (option D)) (g : nat -> D -> option B) lim skip k,
+  loader_items data g lim skip k 0 1 = filter (fun q => skip + k <=? fst q) (loader_items data g lim skip 0 0 1).
+Proof. exact @loader_items_resume. Qed.
+Print Assumptions loader_resume_items.
+
+(** one rank, any fast-forward offset: exactly the items of the single-process run at the positions it owns *)
+Theorem loader_rank_items : forall (D B : Type) (data : list (option D)) (g : nat -> D -> option B) lim skip ff rank W,
+  1 <= W ->
+  loader_items data g lim skip ff rank W =
+  filter (fun q => (skip + ff + rank <=? fst q) && Nat.eqb ((fst q - (skip + ff + rank)) mod W) 0)
+         (loader_items data g lim skip 0 0 1).
+Proof. exact @loader_items_rank. Qed.
+Print Assumptions loader_rank_items.
+
+(** limit = k and skip = k split the items: nothing lost, nothing twice, below k / from k on *)
+Theorem loader_limit_skip_items : forall (D B : Type) (data : list (option D)) (g : nat -> D -> option B) k,
+  Permutation (loader_items data g k 0 0 0 1 ++ loader_items data g (length data) k 0 0 1)
+              (loader_items data g (length data) 0 0 0 1)
+  /\ (forall q, In q (loader_items data g k 0 0 0 1) -> fst q < k)
+  /\ (forall q, In q (loader_items data g (length data) k 0 0 1) -> k <= fst q).
+Proof. exact @loader_items_limit_skip. Qed.
+Print Assumptions loader_limit_skip_items.
+
+(** the modelled pipeline: a delivered item IS the interpreter's value for (line, file index, seed + epoch + position),
+    whatever rank, world size, skip or fast-forward offset delivers it *)
+Theorem item_by_index : forall opq p g b seed epoch data lim skip ff rank W i t,
+  In (i, t) (loader_items data (pipe_fn opq p g b seed epoch) lim skip ff rank W) ->
+  exists d, nth i data None = Some d /\
+            pipeline opq p g b (snd d) (item_info seed epoch i (fst d)) = ROk t.
+Proof. exact loader_item_by_index. Qed.
+Print Assumptions item_by_index.
+
+Theorem item_same_everywhere : forall opq p g b seed epoch data lim skip ff rank W lim' skip' ff' rank' W' i t t',
+  In (i, t) (loader_items data (pipe_fn opq p g b seed epoch) lim skip ff rank W) ->
+  In (i, t') (loader_items data (pipe_fn opq p g b seed epoch) lim' skip' ff' rank' W') -> t = t'.
+Proof. exact loader_item_same. Qed.
+Print Assumptions item_same_everywhere.
+
+(** what used to be the purity ASSUMPTION, as a theorem about the modelled configurations: the processed item is a
+    function of (configuration, line, seed + epoch + position) alone — file index and marks do not matter *)
+Theorem pipeline_pure : forall c g b x i i', has_opaque c = false -> i_seed i = i_seed i' ->
+  pipeline opq_none (PGlobal c) g b x i = pipeline opq_none (PGlobal c) g b x i'.
+Proof. exact pipeline_function_of_seed. Qed.
+Print Assumptions pipeline_pure.
+
+(** a successful loader run, taken apart *)
+Theorem loader_run_spec : forall opq p g b seed epoch s files sort shuffle prefetch blim ty lim skip ff rank W m bs,
+  loader_run opq p g b seed epoch s files lim skip ff rank W sort shuffle prefetch blim ty = LOk m bs ->
+  exists out, gen_lines s (seed + epoch)%N files = Some (C07_Model.Ok out) /\
+    m = min_items lim skip (length out) /\
+    loader_panics opq p g b seed epoch (data_of_out out) lim skip ff rank W = false /\
+    batches_seeded tsize sort shuffle prefetch blim ty (seed + epoch)%N
+                   (loader_items (data_of_out out) (pipe_fn opq p g b seed epoch) lim skip ff rank W) = C06_Model.Ok bs.
+Proof. exact loader_run_ok. Qed.
+Print Assumptions loader_run_spec.
+
+(** [world_batches_partition] without oracle and without purity premise: the batches the W ranks COMPUTE from the
+    seed hold exactly the single-process items, each once, and none is empty — every strategy, every modelled
+    pipeline, every batching mode *)
+Theorem world_partition_modelled_pipeline :
+  forall opq p g b seed epoch s files sort shuffle prefetch blim ty lim skip ff W ms bss,
+  1 <= W -> files <> [] -> (N.of_nat (total_len files) < 9223372036854775807)%N -> length bss = W ->
+  (forall r, r < W -> loader_run opq p g b seed epoch s files lim skip ff r W sort shuffle prefetch blim ty
+                      = LOk (nth r ms 0) (nth r bss [])) ->
+  exists out, gen_lines s (seed + epoch)%N files = Some (C07_Model.Ok out) /\
+    Permutation (concat (concat bss)) (loader_items (data_of_out out) (pipe_fn opq p g b seed epoch) lim skip ff 0 1) /\
+    Forall (fun bs => Forall (fun bt => bt <> []) bs) bss.
+Proof. exact world_partition_modelled. Qed.
+Print Assumptions world_partition_modelled_pipeline.
+
+(** [world_covers_sources] likewise: with a limit that does not cut, no skip and no offset the batches of all ranks
+    hold, each exactly once, the processed item of every line of every file that is an item and that the pipeline
+    accepts; the generator's output is the files' lines, each once, in per-file order, tagged with its file *)
+Theorem world_covers_sources_modelled_pipeline :
+  forall opq p g b seed epoch s files sort shuffle prefetch blim ty lim W ms bss,
+  1 <= W -> files <> [] -> (N.of_nat (total_len files) < 9223372036854775807)%N ->
+  total_len files <= lim -> length bss = W ->
+  (forall r, r < W -> loader_run opq p g b seed epoch s files lim 0 0 r W sort shuffle prefetch blim ty
+                      = LOk (nth r ms 0) (nth r bss [])) ->
+  exists out, gen_lines s (seed + epoch)%N files = Some (C07_Model.Ok out) /\
+    Permutation (concat (concat bss))
+                (keep_some (map (item_at (data_of_out out) (pipe_fn opq p g b seed epoch)) (seq 0 (length out)))) /\
+    (forall j, proj j out = nth j files []) /\ length out = total_len files /\
+    Forall (fun q => fst q < length files) out.
+Proof. exact world_covers_sources_modelled. Qed.
+Print Assumptions world_covers_sources_modelled_pipeline.
+
+(** Non-vacuity: two files, sequential, the whitespace-correction pipeline with probabilities (1/2, 1/2), seed 7, two
+    ranks, batches of two: both ranks run, and the hypotheses of the two world theorems are met by what they return *)
+Definition ex_files : list (list line) :=
+  [[Some (mk_item [97;32;98] [97;32;98]); None; Some (mk_item [99;100] [99;32;100])];
+   [Some (mk_item [101;32;102;32;103] [101;32;102;32;103])]]%N.
+Definition ex_base : base := {| b_off := 256; b_sv := []; b_pre := [257]; b_suf := [258]; b_pad := 259 |}%N.
+Definition ex_run (r : nat) : lres :=
+  loader_run opq_none (PGlobal (Pipeline_Proofs2.wsc_cfg (Fin 4503599627370496 (-53)) (Fin 4503599627370496 (-53))))
+             false ex_base 7 0 Sequential ex_files 10 0 0 r 2 false false 1 2 BatchSize.
+Example modelled_world_example :
+  exists m0 bs0 m1 bs1, ex_run 0 = LOk m0 bs0 /\ ex_run 1 = LOk m1 bs1 /\ m0 = 4 /\ m1 = 4 /\
+    length (concat bs0) = 2 /\ length (concat bs1) = 1.
+Proof. vm_compute. do 4 eexists. repeat split. Qed.
